@@ -525,6 +525,25 @@ func (x *Exec) evalSpecCall(st *State, e *ast.CallExpr) *Value {
 		}
 		k := x.coerce(st, x.eval(st, e.Args[1]), u.Key())
 		return scalarV(boolT, x.mapHas(st, m, u, k))
+	case "madehere":
+		// madehere(v): the local slice variable v currently holds a slice this
+		// function activation allocated itself (make / composite literal)
+		if len(e.Args) != 1 {
+			x.fail("spec: madehere(v)")
+			return x.constInt(0)
+		}
+		if id, ok := e.Args[0].(*ast.Ident); ok && x.specPos.IsValid() {
+			if sc := x.eng.pkg.Types.Scope().Innermost(x.specPos); sc != nil {
+				if _, obj := sc.LookupParent(id.Name, x.specPos); obj != nil {
+					if hv := x.madeVars[obj]; hv != nil {
+						if cur, ok := st.env[hv]; ok {
+							return cur
+						}
+					}
+				}
+			}
+		}
+		return scalarV(boolT, x.b.False())
 	case "visited":
 		// visited(k): k was already taken by the innermost enclosing range over a map
 		if len(x.visitedVars) == 0 || len(e.Args) != 1 {
